@@ -664,8 +664,11 @@ class Learner1D(BaseLearner):
         self.neighbors = _get_neighbors_from_array(points)
         self.neighbors_combined = _get_neighbors_from_array(points_combined)
 
-        # Update scale
-        self._bbox[0] = [points_combined.min(), points_combined.max()]
+        # Update scale; like `tell`, the x-range always contains the domain
+        self._bbox[0] = [
+            min(points_combined.min(), self.bounds[0]),
+            max(points_combined.max(), self.bounds[1]),
+        ]
         self._bbox[1] = [values.min(axis=0), values.max(axis=0)]
         self._scale[0] = self._bbox[0][1] - self._bbox[0][0]
         self._scale[1] = np.max(self._bbox[1][1] - self._bbox[1][0])
